@@ -230,7 +230,7 @@ theorem finv_foldl_resolveFut {st : State} (h : FInv st) (l : List Nat) (t0 : Na
     · intro f' hf'
       rw [(fr.tasks t0).hwaiters]; exact hl f' (by simp [hf'])
 
-theorem finv_hwAppend {st : State} (h : FInv st) (u f : Nat) (hf : Fresh st f)
+theorem finv_hwAppend {st : State} (h : FInv st) (u f : Nat) (hf : FFresh st f)
     (hu : u < st.nTasks) :
     FInv (st.setTask u (fun x => { x with hwaiters := x.hwaiters ++ [f] })) := by
   have hro := roles_of_add (b := st.setTask u (fun x => { x with hwaiters := x.hwaiters ++ [f] }))
@@ -322,7 +322,7 @@ theorem finv_of_roles {a b : State} (h : FInv a) (ht : b.tasks = a.tasks) (hf : 
   · exact hro.2
   all_goals (simp only [ht, hf, h1, h2]; assumption)
 
-theorem finv_oncSet {st : State} (h : FInv st) (g f : Nat) (hf : Fresh st f) :
+theorem finv_oncSet {st : State} (h : FInv st) (g f : Nat) (hf : FFresh st f) :
     FInv (st.setGroup g (fun x => { x with onCompleted := some f })) := by
   refine finv_of_roles h rfl rfl rfl rfl ?_
   refine roles_of_add h (Nat.le_refl _) f (.onC g) hf.norole hf.lt ?_
@@ -337,7 +337,7 @@ theorem finv_oncSet {st : State} (h : FInv st) (g f : Nat) (hf : Fresh st f) :
     · left; simpa [hg] using hr
   | _ => exact .inl hr
 
-theorem finv_userSet {st : State} (h : FInv st) (f : Nat) (hf : Fresh st f) :
+theorem finv_userSet {st : State} (h : FInv st) (f : Nat) (hf : FFresh st f) :
     FInv { st with userFut := upd st.userFut f true } := by
   refine finv_of_roles h rfl rfl rfl rfl ?_
   refine roles_of_add h (Nat.le_refl _) f .user hf.norole hf.lt ?_
@@ -350,7 +350,7 @@ theorem finv_userSet {st : State} (h : FInv st) (f : Nat) (hf : Fresh st f) :
     · left; simpa [hff] using hr
   | _ => exact .inl hr
 
-theorem finv_addSleepTimer {st : State} (h : FInv st) (d f : Nat) (hf : Fresh st f) :
+theorem finv_addSleepTimer {st : State} (h : FInv st) (d f : Nat) (hf : FFresh st f) :
     FInv { st with timers := st.timers ++ [(d, Handle.sleepDone f)] } := by
   refine finv_of_roles h rfl rfl rfl rfl ?_
   refine roles_of_add h (Nat.le_refl _) f .sleep hf.norole hf.lt ?_
@@ -369,7 +369,7 @@ theorem finv_addSleepTimer {st : State} (h : FInv st) (d f : Nat) (hf : Fresh st
   | _ => exact .inl hr
 
 theorem finv_newFut {st : State} (h : FInv st) :
-    FInv (newFut st).1 ∧ Fresh (newFut st).1 st.nFuts := by
+    FInv (newFut st).1 ∧ FFresh (newFut st).1 st.nFuts := by
   have sub : ∀ f r, HasRole (newFut st).1 f r → HasRole st f r := by
     intro f r hr
     cases r <;> exact hr
@@ -416,7 +416,7 @@ def newTaskSt (st : State) (g gs hs : Nat) (sf : Option Nat) : State :=
         startFut := sf, hscope := some hs }) with nTasks := st.nTasks + 1 }
 
 theorem finv_newTask {st : State} (h : FInv st) (g gs hs : Nat) (sf : Option Nat)
-    (hsf : ∀ f, sf = some f → Fresh st f) : FInv (newTaskSt st g gs hs sf) := by
+    (hsf : ∀ f, sf = some f → FFresh st f) : FInv (newTaskSt st g gs hs sf) := by
   have hd := h.tk_dflt st.nTasks (Nat.le_refl _)
   have sub : ∀ f r, HasRole (newTaskSt st g gs hs sf) f r →
       HasRole st f r ∨ (sf = some f ∧ r = .start st.nTasks) := by
@@ -471,7 +471,7 @@ theorem finv_newTask {st : State} (h : FInv st) (g gs hs : Nat) (sf : Option Nat
   all_goals (simp only [newTaskSt, setTask_tasks, setTask_futs, setTask_nTasks, setTask_nFuts]; grind [upd_apply])
 
 theorem finv_spawnCore {st : State} (h : FInv st) (g gs hs : Nat) (sf : Option Nat)
-    (hsf : ∀ f, sf = some f → Fresh st f) : FInv (spawnCore st g gs hs sf) := by
+    (hsf : ∀ f, sf = some f → FFresh st f) : FInv (spawnCore st g gs hs sf) := by
   have e : spawnCore st g gs hs sf = (((newTaskSt st g gs hs sf).schedule (.step st.nTasks)).setScope gs
       (fun x => { x with tasks := st.nTasks :: x.tasks })).setGroup g
       (fun x => { x with tasks := st.nTasks :: x.tasks, spawned := st.nTasks :: x.spawned }) := rfl
